@@ -11,7 +11,7 @@
 #![allow(unused_imports, dead_code)]
 use alloc::vec::Vec;
 
-use crypto::verif_mocks::{self as mk, RecHasher, D, DN};
+use crypto::{verif_mocks::{self as mk, RecHasher, D, DN}, Digest};
 use math::fields::f64::BaseElement as F64;
 use utils::{vcheck, vreach, verif_support as vs};
 
